@@ -46,6 +46,18 @@ def handle (op : String) (args : List String) : String :=
             | _ => "?"
           "ok " ++ dumpTok r ++ " " ++ ri
       | _, _, _ => "err BadArg"
+  | "dupinto", [dsl, t, idx, o, mode, trg, pidx] =>
+    withSchema dsl fun S => withTree S t fun T => withTree S trg fun P =>
+      match idx.toNat?, o.toNat?, mode.toNat?, pidx.toNat? with
+      | some i, some on, some m, some pi =>
+        match locateNode T i, P[pi]? with
+        | some ([p0], sibs), some par =>
+          let opts := DupOpts.ofNat on
+          if p0.sid != par.sid || par.isTerm || opts.withParents then "err BadParent"
+          else "ok " ++ dumpTok (P.set pi (dupInto S opts (m % 2 == 0) par sibs))
+        | some _, some _ => "err BadParent"
+        | _, _ => "err BadIndex"
+      | _, _, _, _ => "err BadArg"
   | "wf", [dsl, t] =>
     withSchema dsl fun S =>
       match forestOfHex S t with
